@@ -3,6 +3,7 @@ package c03
 import (
 	"bytes"
 	"fmt"
+	"strings"
 	"testing"
 
 	ct "github.com/google/certificate-transparency-go"
@@ -180,6 +181,12 @@ func expectedLeaf(w *World, ts uint64) []byte {
 // judgeLeaf compares a leaf produced by the code under test with the RFC 6962 encoding of (E, key hash, ts).
 func judgeLeaf(v *harness.Verdict, w *World, c *Case, route string, leaf *ct.MerkleTreeLeaf, err error, want []byte) {
 	if err != nil || leaf == nil {
+		if c.PoisonNonCrit && err != nil && !strings.HasSuffix(route, "embedded") {
+			// a non-critical poison is not what RFC 6962 s3.1 prescribes: refusing it is fine, only a silent
+			// disagreement between the routes is not
+			v.Class("noncritical-poison-refused:" + route)
+			return
+		}
 		v.Failf("leaf-"+route+"-error", "%s refused a well-formed chain: %v", route, err)
 		return
 	}
@@ -210,7 +217,11 @@ func judgeLeaf(v *harness.Verdict, w *World, c *Case, route string, leaf *ct.Mer
 	}
 }
 
-func judgeTBS(v *harness.Verdict, what string, got []byte, err error, want []byte) {
+func judgeTBS(v *harness.Verdict, what string, got []byte, err error, want []byte, refusalOK bool) {
+	if err != nil && refusalOK {
+		v.Class("noncritical-poison-refused:" + what)
+		return
+	}
 	if err != nil {
 		v.Failf(what+"-error", "%s refused a canonical TBSCertificate: %v", what, err)
 		return
@@ -248,11 +259,11 @@ func checkEntry(t *testing.T, c Case) harness.Verdict {
 		pre = p.PI
 	}
 	got, err := x509.BuildPrecertTBS(inP, pre)
-	judgeTBS(&v, "buildprecert", got, err, w.E)
+	judgeTBS(&v, "buildprecert", got, err, w.E, c.PoisonNonCrit)
 	got, err = x509.RemoveCTPoison(inP)
-	judgeTBS(&v, "removepoison", got, err, w.E0)
+	judgeTBS(&v, "removepoison", got, err, w.E0, c.PoisonNonCrit)
 	got, err = x509.RemoveSCTList(inF)
-	judgeTBS(&v, "removesctlist", got, err, w.E)
+	judgeTBS(&v, "removesctlist", got, err, w.E, false)
 	if !bytes.Equal(inP, w.PTBS) || !bytes.Equal(inF, w.FTBS) {
 		v.Failf("input-mutated", "the transformation modified its input buffer")
 	}
@@ -270,7 +281,7 @@ func checkEntry(t *testing.T, c Case) harness.Verdict {
 			v.Failf("generated-cert-unclean", "sibling issuer does not parse cleanly: %v", err)
 			return
 		}
-		ptbs := w.tbsOf(&c, w.IName, insertExt(w.Content, w.PoisonP, pki.Poison()))
+		ptbs := w.tbsOf(&c, w.IName, insertExt(w.Content, w.PoisonP, w.Poison))
 		ftbs := w.tbsOf(&c, w.IName, insertExt(w.Content, clamp(c.SCTPos, len(w.Content)), pki.SCTList(w.List)))
 		e2, rerr := preref.Transform(ptbs, preref.OIDPoison, nil)
 		if rerr != nil {
@@ -314,7 +325,9 @@ func checkEntry(t *testing.T, c Case) harness.Verdict {
 
 	wantHash := rfc6962.LeafHash(want)
 	anchor := modelToCT(w.SCTModels[w.Anchor])
-	if h, err := ctutil.LeafHash(p.chainP, anchor, false); err != nil {
+	if h, err := ctutil.LeafHash(p.chainP, anchor, false); err != nil && c.PoisonNonCrit {
+		v.Class("noncritical-poison-refused:leafhash")
+	} else if err != nil {
 		v.Failf("leafhash-precert-error", "ctutil.LeafHash(precert chain): %v", err)
 	} else if h != wantHash {
 		v.Failf("leafhash-precert", "ctutil.LeafHash(precert chain) = %x, want %x", h, wantHash)
@@ -335,8 +348,8 @@ func checkEntry(t *testing.T, c Case) harness.Verdict {
 	mustFail(&v, "zero-poison-accepted", "BuildPrecertTBS without poison", short(out), err)
 	out, err = x509.RemoveCTPoison(p0)
 	mustFail(&v, "zero-poison-accepted", "RemoveCTPoison without poison", short(out), err)
-	withP := insertExt(w.Content, w.PoisonP, pki.Poison())
-	p2 := w.tbsOf(&c, issuerNameOfP(w, &c), insertExt(withP, clamp(c.Poison2Pos, len(withP)), pki.Poison()))
+	withP := insertExt(w.Content, w.PoisonP, w.Poison)
+	p2 := w.tbsOf(&c, issuerNameOfP(w, &c), insertExt(withP, clamp(c.Poison2Pos, len(withP)), w.Poison))
 	out, err = x509.BuildPrecertTBS(p2, pre)
 	mustFail(&v, "two-poisons-accepted", "BuildPrecertTBS with two poison extensions", short(out), err)
 	out, err = x509.RemoveCTPoison(p2)
